@@ -101,23 +101,56 @@ def run_longdouble(cases, res):
         v = Fraction(c['v']); d = Fraction(c['d']); ld = np.longdouble(float(v)) + np.longdouble(float(d))
         num, den = ld.as_integer_ratio()
         if Fraction(int(num), int(den)) != v + d: continue      # (the sum is not exact in 64 bits)
-        val = {'scalar': ld, 'arr0d': np.array(ld), 'arr1': np.array([ld]), 'list': [ld]}[c['carrier']]
+        cplx = c['carrier'].startswith('c')       # extended-precision COMPLEX carriers (np.clongdouble): the value is ld - 1j*ld, each part on its own
+        cld = np.array([ld], dtype=np.clongdouble)[0] * (1 - 1j) if cplx else None
+        val = {'scalar': ld, 'arr0d': np.array(ld), 'arr1': np.array([ld]), 'list': [ld], 'cscalar': cld, 'carr1': np.array([cld] if cplx else [0]), 'clist': [cld]}[c['carrier']]
         try:
             if c['route'] == 'ctor': x = fx.Fxp(val, c['s'], c['nw'], c['nf'], rounding=c['r'], overflow=c['o'])
             else:
                 x = fx.Fxp(None, c['s'], c['nw'], c['nf'], rounding=c['r'], overflow=c['o'])
                 (x if c['route'] == 'call' else x.set_val)(val)
-            got = (lib.codes_of(x)[0], lib.status3(x))
+            if cplx:
+                z0 = np.asarray(x.val).reshape(-1).tolist()[0]
+                got = ((int(z0.real), int(z0.imag)), None)
+            else: got = (lib.codes_of(x)[0], lib.status3(x))
         except Exception as e:
             res.fail(c, 'C01: storing a longdouble value raised %s' % lib.exc_name(e), got=str(e)[:200]); continue
-        pend.append((c, got)); reqs.append([4] + e_fmt(c['s'], c['nw'], c['nf']) + [RMODES.index(c['r']), OMODES.index(c['o'])] + e_list([v + d], lib.e_dy))
+        pend.append((c, got)); reqs.append([4] + e_fmt(c['s'], c['nw'], c['nf']) + [RMODES.index(c['r']), OMODES.index(c['o'])] + e_list([v + d, -(v + d)] if cplx else [v + d], lib.e_dy))
     for (c, got), o in zip(pend, model_call(reqs)):
-        rd = Reader(o); want = rd.lst(rd.z)[0]; wf = (rd.b(), rd.b(), rd.b())
+        rd = Reader(o); wants = rd.lst(rd.z); want = wants[0]; wf = (rd.b(), rd.b(), rd.b())
         res.count('L:longdouble-carriers', key=repr(c), nontrivial=True)
+        if c['carrier'].startswith('c'):
+            if got[0] != (wants[0], wants[1]):
+                res.fail(c, 'C01: a complex longdouble value is not stored as OVERFLOW(ROUND(.)) of each component (the carrier was cut to doubles first?)', expected=(wants[0], wants[1]), got=got[0])
+            continue
         if got[0] != want:
             res.fail(c, 'C01: a longdouble value is not stored as OVERFLOW(ROUND(v*2^n_frac)) (the carrier was cut to a double first?)', expected=want, got=got[0]); continue
         if got[1] != wf:
             res.fail(c, 'C01: status flags after storing a longdouble value are not those of its exact quantization', expected=wf, got=got[1])
+
+def run_bool(cases, res):
+    """boolean carriers (Python bool, np.bool_, lists and arrays of them): True is the number 1 and False the number 0"""
+    from lib import Reader
+    fx = lib.impl(); import numpy as np
+    pend = []; reqs = []
+    for c in cases:
+        bs = [bool(b) for b in c['bools']]
+        val = {'pybool': bs[0], 'npbool': np.bool_(bs[0]), 'listbool': list(bs), 'arrbool': np.array(bs)}[c['carrier']]
+        n = 1 if c['carrier'] in ('pybool', 'npbool') else len(bs)
+        try:
+            if c['route'] == 'ctor': x = fx.Fxp(val, c['s'], c['nw'], c['nf'], rounding=c['r'], overflow=c['o'])
+            else:
+                x = fx.Fxp(None if n == 1 else np.zeros(n), c['s'], c['nw'], c['nf'], rounding=c['r'], overflow=c['o'])
+                (x if c['route'] == 'call' else x.set_val)(val)
+            got = (lib.codes_of(x), lib.status3(x))
+        except Exception as e:
+            res.fail(c, 'C01: storing a boolean value raised %s' % lib.exc_name(e), got=str(e)[:200]); continue
+        pend.append((c, got)); reqs.append([4] + e_fmt(c['s'], c['nw'], c['nf']) + [RMODES.index(c['r']), OMODES.index(c['o'])] + e_list([Fraction(int(b)) for b in bs[:n]], lib.e_dy))
+    for (c, got), o in zip(pend, model_call(reqs)):
+        rd = Reader(o); want = rd.lst(rd.z); wf = (rd.b(), rd.b(), rd.b())
+        res.count('B:bool-carriers', key=repr(c), nontrivial=any(c['bools']), n=len(want))
+        if got[0] != want or got[1] != wf:
+            res.fail(c, 'C01: a boolean value is not stored as OVERFLOW(ROUND(v*2^n_frac)) of 1 / 0 with its flags', expected=(want, wf), got=got)
 
 def exhaustive_formats(tier):
     nwmax = 3 if tier == 'quick' else 6
@@ -156,7 +189,7 @@ def shard(shard, nshards, rng, tier, extra):
         carrier = rng.choice(cars)
         route = rng.choice(S.ROUTES)
         cases.append({'s': s, 'nw': nw, 'nf': nf, 'r': rng.choice(RMODES), 'o': rng.choice(OMODES), 'carrier': carrier, 'route': route,
-                      'vals': vals, 'setmode': rng.choice(['slice', 'each', 'fancy'])})
+                      'vals': vals, 'setmode': rng.choice(['slice', 'each', 'fancy', 'view'])})
     check_cases(cases, res, 'B:random-formats-carriers-routes')
     # ---- (C) huge finite floats under saturate, n_frac >= 0 (scalar floats)
     cases = []
@@ -182,7 +215,7 @@ def shard(shard, nshards, rng, tier, extra):
         if rng.random() < 0.5: vals = [float(v) for v in vals]
         carrier = rng.choice(S.carriers_for(vals, rng))
         cases.append({'s': s, 'nw': nw, 'nf': nf, 'r': rng.choice(RMODES), 'o': rng.choice(OMODES), 'carrier': carrier, 'route': rng.choice(S.ROUTES),
-                      'vals': vals, 'setmode': rng.choice(['slice', 'each', 'fancy'])})
+                      'vals': vals, 'setmode': rng.choice(['slice', 'each', 'fancy', 'view'])})
     check_cases(cases, res, 'D:far-out-of-range')
     # ---- (D2) beyond the stated |v*2^n_frac| < 2^62: floats whose scaled value lies in [2^62, 2^70) under WRAP (the period law of C03
     # speaks of any multiple of the modulus); compared with the Spec only (the model's int64 cast is undefined there)
@@ -230,8 +263,14 @@ def shard(shard, nshards, rng, tier, extra):
         e = math.floor(math.log2(abs(float(v))))
         d = Fraction(rng.choice([1, -1, 3, -3]), 1) * Fraction(2) ** (e - rng.choice([60, 61, 62]))
         cases.append({'s': s, 'nw': nw, 'nf': nf, 'r': rng.choice(RMODES), 'o': rng.choice(OMODES), 'v': str(Fraction(v)), 'd': str(d),
-                      'carrier': rng.choice(['scalar', 'scalar', 'arr0d', 'arr1', 'list']), 'route': rng.choice(['ctor', 'call', 'set_val'])})
+                      'carrier': rng.choice(['scalar', 'scalar', 'arr0d', 'arr1', 'list', 'cscalar', 'carr1', 'clist']), 'route': rng.choice(['ctor', 'call', 'set_val'])})
     run_longdouble(cases, res)
+    cases = []
+    for _ in range((80 if tier == 'quick' else 2000) // nshards + 1):
+        s_, nw, nf = S.random_format(rng)
+        cases.append({'bools': [rng.random() < 0.6 for _k in range(rng.choice([1, 2, 3]))], 'carrier': rng.choice(['pybool', 'npbool', 'listbool', 'arrbool']), 'route': rng.choice(['ctor', 'call', 'set_val']),
+                      's': s_, 'nw': nw, 'nf': nf, 'r': rng.choice(RMODES), 'o': rng.choice(OMODES)})
+    run_bool(cases, res)
     # ---- (X) complex inputs: each component on its own
     cases = []
     for _ in range((800 if tier == 'quick' else 20000) // nshards):
@@ -271,6 +310,8 @@ def classify(fl):
     return None
 
 def replay(payload):
+    if 'bools' in payload.get('case', {}):
+        res = Result(); run_bool([payload['case']], res); return {'holds': not res.failures, 'failures': res.failures}
     if 'd' in payload.get('case', {}) and 'v' in payload['case']:
         res = Result(); run_longdouble([payload['case']], res); return {'holds': not res.failures, 'failures': res.failures}
     c = payload['case']
